@@ -408,7 +408,8 @@ fn srs(tier: Tier) -> &'static [u32] {
 }
 fn centre_freqs(tier: Tier, sr: u32) -> Vec<f64> {
 	let s = sr as f64;
-	let mut v = vec![10.0, 100.0, 1000.0, 3000.0, 0.25 * s, 0.45 * s];
+	// (0.497 sr: a corner just below Nyquist is still a corner of its own)
+	let mut v = vec![10.0, 100.0, 1000.0, 3000.0, 0.25 * s, 0.45 * s, 0.497 * s];
 	if tier == Tier::Thorough {
 		v.extend([20.0, 300.0, 0.49 * s]);
 	}
